@@ -58,6 +58,8 @@ def strategy(draw, tier="quick"):
     if what == "rdf":
         case.update(rlo=draw(st.sampled_from([0.0, 0.0, 0.1])), rhi=draw(st.sampled_from([1.0, 0.6, 1.45])),
                     bins=draw(st.sampled_from([None, None, 7, 40])), width=draw(st.sampled_from([0.005, 0.05, 0.13])))
+    if what == "moments":
+        case["offset"] = draw(st.sampled_from([0.0, 0.0, 30.0, 300.0]))      # the whole system far from the origin
     if what == "rdf_t":
         case.update(nf=draw(st.integers(2, 5)), rhi=draw(st.sampled_from([1.0, 0.6])), bins=draw(st.sampled_from([5, 20])),
                     self_corr=draw(st.booleans()), n_conc=draw(st.sampled_from([100000, 7, 10, 64])), npairs=draw(st.integers(3, 40)),
@@ -92,6 +94,7 @@ def build(case):
     nf = case["nf"]
     x0 = sub.xyz[0].astype(np.float64)
     x0 -= x0.min(0) - 0.5
+    x0 += case.get("offset", 0.0) * np.array([1.0, -0.7, 0.4])
     xyz = np.array([x0 + rng.normal(0, case["noise"] * (1 + f), x0.shape) for f in range(nf)]).astype(np.float32)
     t = md.Trajectory(xyz, sub.topology, time=np.arange(nf) * 1.0)
     need_cell = case["what"] in ("rdf", "rdf_t", "density", "dipole", "volume-stats")
